@@ -14,6 +14,8 @@ try:
         subprocess.run(["patch", "-R", "-p1", "-s", "-d", tmp], input=d, text=True, check=True)
     elif mode == "--patch":
         subprocess.run(["patch", "-p1", "-s", "-d", tmp], stdin=open(what), check=True)
+    elif mode == "--py":
+        subprocess.run(["python3", what, tmp], check=True)
     elif mode == "--sed":
         f, old, new = what.split("::")
         p = os.path.join(tmp, f)
